@@ -226,8 +226,16 @@ def body(ctx, shape):
         for i, target in enumerate(seqs):
             for clen in (0, 2):
                 t = ctx.int(f"xt{i}_{clen}", 0x80, 0xFF)
-                ctx.assume(ctx.all(t % 32 >= 12, t % 32 <= 30))
+                # any context / private tag number 0..30 that this SEQUENCE type does not define
+                known = _recognised(root, target)
+                ctx.assume(ctx.all(t % 32 >= 5, t % 32 <= 30))
+                ctx.assume(ctx.any(t >= 0xC0, ctx.all(*[t % 32 != k for k in known])))
                 content = ctx.bytes(f"xc{i}_{clen}", clen)
+                if target is root:
+                    # [10] after the protocolOp is the MS-ADTS responseName (an LDAPOID): when that
+                    # number is used its content is text, as the extension defines it
+                    for j in range(clen):
+                        ctx.assume(ctx.any(t % 32 != 10, t >= 0xC0, content[j] < 128))
                 extra_el = _one(ctx, t) + bytes([clen]) + content
                 alt = encode(root, lambda n: {"append": extra_el} if n is target else {})
                 decode_and_compare(ctx, alt, m, "trailing-element:" + _where(root, target))
@@ -242,6 +250,29 @@ def body(ctx, shape):
                     extra_el = bytes([ut, 1]) + content
                     alt = encode(root, lambda n: {"append": extra_el} if n is target else {})
                     decode_and_compare(ctx, alt, m, "trailing-universal-element:" + _where(root, target))
+
+
+def _recognised(root, node):
+    """context-specific tag numbers that mean something after the components of this node"""
+    if node is root:
+        op = root.kids[1]
+        # [0] controls; [10] is the MS-ADTS responseName, only meaningful (and then not neutral)
+        # for an ExtendedResponse
+        return [0, 10] if op.tag == b"\x78" else [0]
+    t = node.tag
+    if t == b"\x61":  # BindResponse: referral [3], serverSaslCreds [7]
+        return [3, 7]
+    if t in (b"\x65",):  # SearchResultDone: referral
+        return [3]
+    if t == b"\x78":  # ExtendedResponse
+        return [3, 10, 11]
+    if t == b"\x77":  # ExtendedRequest
+        return [0, 1]
+    if node.role == "ext":
+        return [1, 2, 3, 4]
+    if t == b"\xa4":  # SubstringFilter: the choices live one level down
+        return []
+    return []
 
 
 def _universal_ok(root, node):
